@@ -3,7 +3,11 @@
    computes with ref/Bign.tla what STB 34.101.45 says the outputs are and writes one file per case; harness/drv_bign.c
    `exec` runs them on the library, python compares.  Private keys and nonces are short (16 bits) in most cases so
    that one case costs TLC seconds; the hash values range over the boundary classes (incl. H >= q), the key-generation
-   tapes start with samples in [q, p) that the standard's d <-R {1..q-1} must skip. *)
+   tapes start with samples in [q, p) that the standard's d <-R {1..q-1} must skip.
+   Appendix B: id-signatures under the identity keys e = 0, q - 1 and a 16-bit e (the predicted signature for e = 0 is
+   S0 || (k - H) mod q); thorough: a whole chain for which TLC CONSTRUCTS the trusted party's key d = k (s0 + 2^l)^(-1)
+   mod q so that B.2.3 defines the identity key e = 0 - predicted: the trusted party's signature, (e, R), the
+   id-signature and the verdict of B.2.5. *)
 EXTENDS Bign, Prng, Json, IOUtils, TLC
 
 Seed == atoi(IOEnv.GEN_SEED)
@@ -22,8 +26,9 @@ HOf(c, id) == CASE c = 0 -> PrngOctets(Seed, id * 31 + 7, P.no)
 QP1 == Add(P.q, One)
 \* <<operation, class>>
 Kinds == <<<<"keygen", 0>>, <<"keygen", 1>>, <<"keygen", 2>>, <<"sign", 0>>, <<"sign", 1>>, <<"sign", 2>>, <<"sign", 3>>, <<"sign", 4>>,
-           <<"wrap", 0>>, <<"wrap", 1>>, <<"unwrap", 0>>, <<"unwrap", 1>>, <<"sign", 5>>, <<"sign2", 0>>>>
-NCases == IF Tier = "thorough" THEN Len(Kinds) ELSE Len(Kinds) - 1
+           <<"wrap", 0>>, <<"wrap", 1>>, <<"unwrap", 0>>, <<"unwrap", 1>>, <<"idsign", 0>>, <<"idsign", 1>>, <<"idsign", 2>>,
+           <<"sign", 5>>, <<"sign2", 0>>, <<"idchain", 0>>>>
+NCases == IF Tier = "thorough" THEN Len(Kinds) ELSE Len(Kinds) - 2
 Case(id) ==
   LET op == Kinds[id][1]  c == Kinds[id][2]
       d == R16(id, 1)  k == R16(id, 2)
@@ -31,7 +36,8 @@ Case(id) ==
       I == PrngOctets(Seed, id * 31 + 4, 16)
       Qo == PtOct(P, PubkeyOf(P, d))
       base == [op |-> op, l |-> Lv, oid |-> OID, H |-> <<>>, d |-> Oct(d, P.no), tape |-> <<>>, X |-> <<>>, I |-> I, Q |-> <<>>,
-               token |-> <<>>, t |-> <<>>, sig |-> <<>>, key |-> <<>>]
+               token |-> <<>>, t |-> <<>>, sig |-> <<>>, key |-> <<>>,
+               H0 |-> <<>>, e |-> <<>>, tape2 |-> <<>>, R |-> <<>>, casig |-> <<>>, verdict |-> ""]
   IN CASE op = "keygen" ->
             \* first samples q+1 / q and (q+p)/2 / 0, 2^2l-1, p-1: all outside {1..q-1}
             LET pre == CASE c = 0 -> Oct(QP1, P.no)
@@ -47,6 +53,21 @@ Case(id) ==
        [] op = "sign2" ->
             LET H == HOf(0, id)  n == DetNonce(P, OID, d, H, I)
             IN [base EXCEPT !.H = H, !.t = I, !.sig = IF n.ok THEN Sign(P, OID, H, d, n.k) ELSE <<>>]
+       [] op = "idsign" ->
+            LET H == HOf(IF c = 1 THEN 2 ELSE 0, id)  H0 == PrngOctets(Seed, id * 31 + 8, P.no)
+                e == CASE c = 0 -> Zero [] c = 1 -> Norm(Sub2(P.q, One)) [] c = 2 -> d
+            IN [base EXCEPT !.H = H, !.H0 = H0, !.e = Oct(e, P.no), !.d = <<>>, !.tape = Oct(k, P.no), !.sig = IdSign(P, OID, H0, H, e, k)]
+       [] op = "idchain" ->
+            LET H == HOf(0, id)  H0 == PrngOctets(Seed, id * 31 + 8, P.no)  k2 == R16(id, 5)
+                s0 == Num(HashL(P, OID, EB!ScalarMulJ(Curve(P), k, G(P)), H0))
+                dd == Mod(Mul(k, ModInv(Add(s0, PowL(P)), P.q)), P.q)                 \* e = k - (s0 + 2^l) d = 0
+                Qd == PtOct(P, PubkeyOf(P, dd))
+                cs == Sign(P, OID, H0, dd, k)
+                x == IdExtract(P, OID, H0, cs, Qd)
+                is == IdSign(P, OID, H0, H, x.e, k2)
+            IN [base EXCEPT !.H = H, !.H0 = H0, !.d = Oct(dd, P.no), !.Q = Qd, !.tape = Oct(k, P.no), !.tape2 = Oct(k2, P.no), !.casig = cs,
+                            !.e = Oct(x.e, P.no), !.R = IF x.st = "ok" THEN PtOct(P, x.R) ELSE <<>>, !.sig = is,
+                            !.verdict = IF x.st = "ok" THEN IdVerify(P, OID, H0, H, is, PtOct(P, x.R), Qd) ELSE x.st]
        [] op = "wrap" -> [base EXCEPT !.X = X, !.Q = Qo, !.tape = Oct(k, P.no), !.token = KeyWrap(P, X, I, Qo, k)]
        [] op = "unwrap" -> LET tok == KeyWrap(P, X, I, Qo, k)
                                u == KeyUnwrap(P, tok, I, d)
